@@ -251,6 +251,15 @@ def run_word(ctx, h, nletters, prefix_ops=12):
                 for _ in range(rng.randint(1, 2)):
                     c2 = gen_cmd(rng, mm, w, prefer_delete=left_behind)
                     if c2 is not None and c2[0][0] != 'Compound' and not c2[1]:
+                        # the operands of a command are chosen on the state before the call: two commands that each
+                        # change who contains whom could build a containment cycle together
+                        def touches_containment(sp_):
+                            if sp_[0] == 'Delete':
+                                return True
+                            f_ = mm.feats[sp_[2]]
+                            return f_.ref and (f_.cont or (f_.opp is not None and mm.feats[f_.opp].cont))
+                        if touches_containment(c2[0]) and any(touches_containment(sp_) for sp_ in specs):
+                            continue
                         specs.append(c2[0])
                 if len(specs) > 1:
                     word.append(('exec-batch', specs))
@@ -473,8 +482,83 @@ def corr_word(ctx, h, nletters, model_in, expect):
     ctx.traces += 1
 
 
+INTERFERING = [
+    # (name, builder of the sub-commands from (C, a, b1, b2, k1, k2))
+    ('Add then Remove of the same element', lambda C, a, b1, b2, k1, k2: [C.Add(a, 'bs', b2), C.Remove(a, 'bs', value=b2)]),
+    ('Remove then Add of the same element', lambda C, a, b1, b2, k1, k2: [C.Remove(a, 'bs', value=b1), C.Add(a, 'bs', b1)]),
+    ('Add then Move of the added element', lambda C, a, b1, b2, k1, k2: [C.Add(a, 'bs', b2), C.Move(a, 'bs', value=b2, to_index=0)]),
+    ('Add of a child then Delete of the owner', lambda C, a, b1, b2, k1, k2: [C.Add(a, 'kids', k2), C.Delete(a)]),
+    ('Set then Delete of the target', lambda C, a, b1, b2, k1, k2: [C.Set(a, 'one', b2), C.Delete(b2)]),
+    ('Remove by index twice', lambda C, a, b1, b2, k1, k2: [C.Remove(a, 'kids', index=0), C.Remove(a, 'kids', index=0)]),
+    ('Add, Remove, Set', lambda C, a, b1, b2, k1, k2: [C.Add(a, 'bs', b2), C.Remove(a, 'bs', value=b2), C.Set(a, 'name', 'y')]),
+]
+
+
+def compound_interference_pass(ctx):
+    """Compound commands whose sub-commands work on the same feature or on each other's operands: `Compound.can_execute`
+    asks every sub-command before any of them runs (so a snapshot taken there is a snapshot of the state before the
+    whole compound), `Compound.can_undo` asks every sub-command after all of them ran.  Recorded finding F-C06-3; the
+    generated words keep the sub-commands of a compound disjoint, where the statement is decided as for any command."""
+    from pyecore import ecore as E
+    from pyecore import commands as C
+    for k, (name, build) in enumerate(INTERFERING):
+        A, B = E.EClass('A'), E.EClass('B')
+        A.eStructuralFeatures.extend([E.EAttribute('name', E.EString), E.EReference('bs', B, upper=-1),
+                                      E.EReference('one', B), E.EReference('kids', A, upper=-1, containment=True)])
+        root, a, b1, b2, k1, k2 = A(name='root'), A(name='x'), B(), B(), A(name='k1'), A(name='k2')
+        root.kids.append(a)
+        a.bs.append(b1); a.kids.append(k1)
+        objs = [root, a, b1, b2, k1, k2]
+
+        def snap():
+            out = []
+            for o in objs:
+                for f in sorted(o.eClass.eAllStructuralFeatures(), key=lambda f: f.name):
+                    v = o.eGet(f)
+                    vals = list(v) if f.many else [v]
+                    out.append((objs.index(o), f.name, [objs.index(x) if any(x is y for y in objs) else x for x in vals]))
+                c = o.eContainer()
+                out.append((objs.index(o), 'container', objs.index(c) if c is not None else None))
+            return out
+        before = snap()
+        stack = C.CommandStack()
+        try:
+            cmd = C.Compound(*build(C, a, b1, b2, k1, k2))
+            if not cmd.can_execute:
+                ctx.count('compound-interference/cannot-execute')
+                continue
+            stack.execute(cmd)
+        except Exception:
+            ctx.count('compound-interference/execute-raised')
+            continue
+        after = snap()
+        ctx.evaluations += 1
+        ctx.count('compound-interference/executed')
+        ctx.nontriv(('compound-interference', k))
+        raised = None
+        try:
+            stack.undo()
+        except Exception as e:
+            raised = type(e).__name__
+        now = snap()
+        if now != before or raised:
+            ctx.violate({'clause': 'undo', 'cmd': 'Compound', 'trigger': 'compound-subcommands-interfere'},
+                        f'undo: after undo of Compound({name}) the model is not what it was before the command ({raised or "returned"})',
+                        {'compound_interference': k, 'name': name})
+            continue
+        try:
+            stack.redo()
+        except Exception as e:
+            raised = type(e).__name__
+        if snap() != after or raised:
+            ctx.violate({'clause': 'redo', 'cmd': 'Compound', 'trigger': 'compound-subcommands-interfere'},
+                        f'redo: after redo of Compound({name}) the model is not the state after the command ({raised or "returned"})',
+                        {'compound_interference': k, 'name': name})
+
+
 def run(ctx):
     common.use_repo()
+    compound_interference_pass(ctx)
     n = 600 if ctx.quick() else 12000
     nl = 14 if ctx.quick() else 22
     ctx.rule = (f'{n} words over {{execute(Set|Add|Remove|Move|Delete|Compound), undo, redo}} (<= {nl} letters, about 45% undo/redo) from a '
@@ -512,6 +596,13 @@ def search(ctx):
 def replay(ctx, data):
     common.use_repo()
     r = data['replay']
+    if 'compound_interference' in r:
+        c2 = common.Ctx('C06', 'quick', 0)
+        compound_interference_pass(c2)
+        hits = [v for v in c2.violations if v['replay'].get('compound_interference') == r['compound_interference']]
+        for v in hits:
+            print('  ', v['what'])
+        return 1 if hits else 0
     mm = storecheck.mm_from_lines(r['metamodel'])
     cw = CmdWorld(mm)
     for l in r['prefix']:
